@@ -117,6 +117,7 @@ class TransferManager(BaseManager):
             name='transfer-management-task'
         )
         self._management_lock: asyncio.Lock = asyncio.Lock()
+        self._download_path_lock: asyncio.Lock = asyncio.Lock()
         self._management_flags: _RequestFlag = _RequestFlag(0)
 
         self._MESSAGE_MAP = build_message_map(self)
@@ -675,12 +676,20 @@ class TransferManager(BaseManager):
         return list(reversed([upload for _, upload in ranking]))
 
     async def _prepare_download_path(self, transfer: Transfer):
-        if transfer.local_path is None:
-            download_path, file_path = self._shares_manager.calculate_download_path(transfer.remote_path)
-            transfer.local_path = os.path.join(download_path, file_path)
+        # The calculated path only takes files into account that exist on disk.
+        # Downloads that start at the same moment need to calculate their path
+        # one after the other and the file needs to exist before the next path
+        # gets calculated, otherwise they end up writing to the same file
+        async with self._download_path_lock:
+            if transfer.local_path is None:
+                download_path, file_path = self._shares_manager.calculate_download_path(transfer.remote_path)
+                transfer.local_path = os.path.join(download_path, file_path)
 
-        path, _ = os.path.split(transfer.local_path)
-        await self._shares_manager.create_directory(path)
+            path, _ = os.path.split(transfer.local_path)
+            await self._shares_manager.create_directory(path)
+
+            async with aiofiles.open(transfer.local_path, mode='ab'):
+                pass
 
     async def _calculate_offset(self, transfer: Transfer) -> int:
         """Calculates the offset when downloading a file by inspecting the file
